@@ -2,7 +2,7 @@
    coordinates' own slicing (table_coord.py), after the repairs (lists instead of sets; only the axes
    that survive are renumbered).  Definitions only. *)
 From NDV Require Export M_Slicing Shape.
-From Coq Require Export QArith.
+From Coq Require Export QArith Qabs.
 Open Scope Z_scope.
 
 Inductive tkind :=
